@@ -5,7 +5,7 @@ from __future__ import annotations
 
 import json
 
-from mbt import batch
+from mbt import batch, tlc
 from sim import gwrun
 
 
@@ -130,7 +130,26 @@ def multi_part(ctx, own_prefixes):
         hist[vd] = hist.get(vd, 0) + 1
         if vd != "ok" and vd.startswith(tuple(own_prefixes)):
             ctx.violation(f"{vd}: {json.dumps(o)[:400]}", o)
-    return {"cases": len(outs), "verdict_histogram": hist}
+    # the waitclose / send_each loops as a model (spec/MultiChan.tla) and its behaviours replayed on a real group
+    from real import multiwords_real
+
+    mc = tlc.run("MultiChan", "MC.cfg", scratch=ctx.scratch, timeout=300, parse_trace=False)
+    if not mc.ok:
+        ctx.machinery(f"TLC MultiChan: {mc.violated} {mc.error[:300]}")
+    for cfg, want in (("MC_stopatfirst", "AllClosedWhenOver"), ("MC_rawsend", "NoFrameAfterClose")):
+        m = tlc.run("MultiChan", cfg + ".cfg", scratch=ctx.scratch, timeout=300, parse_trace=False)
+        if m.violated != want:
+            ctx.machinery(f"TLC mutant MultiChan/{cfg} not killed by {want} ({m.violated})")
+    words = multiwords_real.run_words(multiwords_real.words())
+    wv = batch.judge("MultiChanCases", words, ctx.scratch)
+    whist = {}
+    for o, vd in zip(words, wv):
+        whist[vd] = whist.get(vd, 0) + 1
+        if vd.startswith("HARNESS"):
+            ctx.machinery(f"{vd}: {json.dumps(o)[:300]}")
+        if vd != "ok" and vd.startswith(tuple(own_prefixes)):
+            ctx.violation(f"{vd}: {json.dumps(o)[:400]}", o)
+    return {"cases": len(outs), "verdict_histogram": hist, "multichan_states": mc.distinct, "multichan_words_replayed": len(words), "multichan_verdicts": whist}
 
 
 def chanfile_delivery_part(ctx, rng, own_prefixes):
